@@ -59,6 +59,7 @@ func init() {
 		Run: func(c *core.Ctx, b core.Batch) {
 			var p c04Params
 			json.Unmarshal(b.Params, &p)
+			defer checkPredefinedErrors(c, "C07")
 			if p.Kind == "service-events" {
 				c07ServiceEvents(c, p)
 				return
